@@ -387,7 +387,7 @@ def main(argv):
     # 2. generated / enumerated shards
     shards = mod.shards(tier, seed)
     jobs = [(modname, prop, tier, seed, s) for s in shards]
-    timeout = getattr(mod, 'TIMEOUT', {}).get(tier, 900 if tier == 'quick' else 7200)
+    timeout = getattr(mod, 'WATCHDOG', {}).get(tier, 900 if tier == 'quick' else 7200)
     if getattr(mod, 'INPROCESS', False) or NPROC == 1:
         results = [_run_shard(j) for j in jobs]
     else:
